@@ -1,9 +1,10 @@
 --------------------------- MODULE GetRecordTrace ---------------------------
 (***************************************************************************)
 (* Trace specification for C05.  Each line is one step on the REAL code:   *)
-(*   Call / Found / Finished / NotFound / QuorumFailed / Timeout           *)
-(*       a GetNetworkRecord command or a synthetic kad event handled by    *)
-(*       the real SwarmDriver, with what every caller's channel delivered  *)
+(*   Call / Cancel / Found / Finished / NotFound / QuorumFailed / Timeout  *)
+(*       a GetNetworkRecord command, a caller dropping its receiver, or a  *)
+(*       synthetic kad event handled by the real SwarmDriver,              *)
+(*       with what every (remaining) caller's channel delivered            *)
 (*       in that step (dl), the query the caller was attached to (att) and *)
 (*       the queries still pending afterwards (pq);                        *)
 (*   SplitCase   Network::get_record_from_network answered with a split of *)
@@ -26,7 +27,8 @@ CONSTANT KnownMask
 VARIABLES l, g, m, viol, known, drift, stats
 vars == <<l, g, m, viol, known, drift, stats>>
 
-OutOf(j) == [kind |-> j.kind, e |-> j.e, cid |-> j.cid, k |-> j.k, vk |-> j.vk, vs |-> ToSet(j.vs)]
+OutOf(j) == [kind |-> j.kind, e |-> j.e, cid |-> j.cid, k |-> j.k, vk |-> j.vk, vs |-> ToSet(j.vs),
+             vb |-> j.vb, vm |-> j.vm, h |-> j.h]
 DlOf(seq) == {[caller |-> seq[i].caller, o |-> OutOf(seq[i].o)] : i \in 1..Len(seq)}
 RunsOf(seq) == [i \in 1..Len(seq) |-> [it |-> seq[i].it, o |-> OutOf(seq[i].o)]]
 
@@ -34,25 +36,30 @@ Known == {"Reset", "Skipped"} \cup KadEv \cup {"SplitCase", "ClientRetry"}
 InUniverse(S) == \A c \in S : c \in CId
 WellFormed(e) ==
     IF e.ev \in {"Reset", "Skipped"} THEN TRUE
+    ELSE IF e.ev = "Cancel" THEN e.caller \in Caller /\ Len(e.dl) = 0
     ELSE IF e.ev = "Call" THEN e.caller \in Caller /\ e.key \in Key /\ e.quorum \in Quorums /\ e.target \in CId \cup {0}
+                               /\ e.isreg \in BOOLEAN /\ e.eh \in 0..2
                                /\ e.att \in Query \cup {0} /\ \A i \in 1..Len(e.dl) : e.dl[i].caller \in Caller
     ELSE IF e.ev \in KadEv THEN /\ e.q \in Query /\ \A i \in 1..Len(e.dl) : e.dl[i].caller \in Caller
                                 /\ (e.ev = "Found" => e.p \in Peer /\ e.c \in CId /\ e.k \in Key)
-    ELSE IF e.ev = "SplitCase" THEN InUniverse(ToSet(e.vs)) /\ e.target \in CId \cup {0} /\ Len(e.runs) >= 1
+    ELSE IF e.ev = "SplitCase" THEN InUniverse(ToSet(e.vs)) /\ e.target \in CId \cup {0} /\ Len(e.runs) >= 1 /\ e.txnbytes \in BOOLEAN
                                     /\ \A i \in 1..Len(e.runs) : ToSet(e.runs[i].it) = ToSet(e.vs)
     ELSE e.ev = "ClientRetry" /\ e.natt >= 1 /\ Len(e.ans) >= 1
          /\ \A i \in 1..Len(e.ans) : e.ans[i].a \in {"Ok", "Split", "Err"}
 
 Blank == [ev |-> "", s |-> 0, g |-> 0, g2 |-> 0, caller |-> 0, key |-> 0, quorum |-> "One", target |-> 0,
+          isreg |-> FALSE, eh |-> 0, txnbytes |-> FALSE,
           q |-> 0, p |-> 0, c |-> 0, k |-> 0, dl |-> {}, pq |-> {}, att |-> 0, res |-> "",
           vs |-> {}, runs |-> <<>>, ans |-> <<>>, natt |-> 0, o |-> 0, used |-> 0]
 StepOf(e) ==
     IF e.ev \in KadEv
     THEN [Blank EXCEPT !.ev = e.ev, !.g = g, !.caller = e.caller, !.key = e.key, !.quorum = e.quorum, !.target = e.target,
                        !.q = e.q, !.p = e.p, !.c = e.c, !.k = e.k, !.dl = DlOf(e.dl), !.pq = ToSet(e.pq),
-                       !.att = e.att, !.res = e.res]
+                       !.att = e.att, !.res = e.res,
+                       !.isreg = (e.ev = "Call" /\ e.isreg), !.eh = (IF e.ev = "Call" THEN e.eh ELSE 0)]
     ELSE IF e.ev = "SplitCase"
-    THEN [Blank EXCEPT !.ev = e.ev, !.g = g, !.key = e.key, !.target = e.target, !.vs = ToSet(e.vs), !.runs = RunsOf(e.runs)]
+    THEN [Blank EXCEPT !.ev = e.ev, !.g = g, !.key = e.key, !.target = e.target, !.vs = ToSet(e.vs), !.runs = RunsOf(e.runs),
+                       !.txnbytes = e.txnbytes]
     ELSE [Blank EXCEPT !.ev = e.ev, !.g = g, !.key = e.key, !.ans = e.ans, !.natt = e.natt, !.o = OutOf(e.o), !.used = e.used]
 
 \* ---- the model run alongside (drift)
@@ -68,7 +75,8 @@ ClientConforms(x) ==
     ELSE LET r == ClientGet(x.ans, x.natt, x.key, 1) IN SameOutcome(r.o, x.o) /\ r.used = x.used
 
 Stats0 == [steps |-> 0, calls |-> 0, replies |-> 0, terms |-> 0, delivered |-> 0, ok |-> 0, okmerged |-> 0, split |-> 0,
-           err |-> 0, joined |-> 0, splitcases |-> 0, splitruns |-> 0, orders |-> 0, merged |-> 0, retries |-> 0, skipped |-> 0]
+           err |-> 0, joined |-> 0, cancels |-> 0, owedaftercancel |-> 0, isregcalls |-> 0, ehcalls |-> 0, foreigncases |-> 0,
+           splitcases |-> 0, splitruns |-> 0, orders |-> 0, merged |-> 0, retries |-> 0, skipped |-> 0]
 Count(S) == Cardinality(S)
 StatsNext(x) ==
     IF x.ev \in KadEv THEN
@@ -77,6 +85,11 @@ StatsNext(x) ==
                     !.replies = @ + (IF x.ev = "Found" THEN 1 ELSE 0),
                     !.terms = @ + (IF x.ev \in TermEv THEN 1 ELSE 0),
                     !.joined = @ + (IF x.ev = "Call" /\ x.att \in {x.g.qOf[c] : c \in x.g.called} THEN 1 ELSE 0),
+                    !.cancels = @ + (IF x.ev = "Cancel" THEN 1 ELSE 0),
+                    !.isregcalls = @ + (IF x.ev = "Call" /\ x.isreg THEN 1 ELSE 0),
+                    !.ehcalls = @ + (IF x.ev = "Call" /\ x.eh # 0 THEN 1 ELSE 0),
+                    \* outcomes delivered to a caller whose query was shared with a caller that had given up
+                    !.owedaftercancel = @ + Count({d \in x.dl : \E c \in x.g2.cancelled : x.g2.qOf[c] = x.g2.qOf[d.caller]}),
                     !.delivered = @ + Count(x.dl),
                     !.ok = @ + Count({d \in x.dl : d.o.kind = "Ok"}),
                     !.okmerged = @ + Count({d \in x.dl : d.o.kind = "Ok" /\ Cardinality(Versions(x.g2, x.g2.qOf[d.caller], x.g2.cfg[d.caller].key)) >= 2}),
@@ -84,6 +97,7 @@ StatsNext(x) ==
                     !.err = @ + Count({d \in x.dl : d.o.kind = "Err"})]
     ELSE IF x.ev = "SplitCase" THEN
       [stats EXCEPT !.steps = @ + 1, !.splitcases = @ + 1, !.splitruns = @ + Len(x.runs),
+                    !.foreigncases = @ + (IF x.vs \cap Foreign # {} THEN 1 ELSE 0),
                     !.orders = @ + Count({x.runs[i].it : i \in 1..Len(x.runs)}),
                     !.merged = @ + Count({i \in 1..Len(x.runs) : x.runs[i].o.kind = "Ok"})]
     ELSE [stats EXCEPT !.steps = @ + 1, !.retries = @ + 1]
